@@ -159,7 +159,10 @@ JudgeLong(r) ==
                   entries == {r.tab[k] : k \in 1..Len(r.tab)}
               IN \A k \in 1..(Len(r.ids) - 1) : (tb(r.ids[k]) \o tb(r.ids[k + 1])) \notin entries>>,
           <<"C01:byte_ids_are_prefix_bytes_suffix", r.which = "byte" => r.ids = r.text>>,
-          <<"C01:byte_decode_body_is_text", r.which = "byte" => r.dec = r.text>>
+          <<"C01:byte_decode_body_is_text", r.which = "byte" => r.dec = r.text>>,
+          \* the token groups of the byte tokenizer (grapheme mode, no prefix / suffix): one per character, covering every id
+          <<"C17:groups_sum_to_token_count", (r.which = "byte" /\ r.ngroups >= 0) => r.gsum = Len(r.ids)>>,
+          <<"C17:one_group_per_character_and_special_token", (r.which = "byte" /\ r.ngroups >= 0) => r.ngroups = r.nchars>>
         >>
         bad == SelectSeq(cl, LAMBDA x : ~x[2])
     IN [why |-> [k \in 1..Len(bad) |-> bad[k][1]], drift |-> <<>>, skip |-> FALSE, nt |-> TRUE]
